@@ -180,6 +180,9 @@ func (c *urrInst) buildMenu() {
 			pre: func(s *urrRefSess) bool { return s.pdrLive[p] }})
 		for _, u := range uids {
 			u := u
+			// a URR and the PDR that names it provisioned by ONE Modification Request
+			add(urrEv{name: fmt.Sprintf("CreateURR(%d)+CreatePDR(%d,[%d])", u, p, u), ops: []smf.RuleOp{op('C', 'U', u), pdr('C', p, 1, u)},
+				pre: func(s *urrRefSess) bool { return !s.exists[u] && !named(s, u) && !s.pdrLive[p] }})
 			add(urrEv{name: fmt.Sprintf("RemoveURR(%d)+RemovePDR(%d)", u, p), ops: []smf.RuleOp{op('R', 'U', u), pdr('R', p, 0)},
 				pre: func(s *urrRefSess) bool { return s.exists[u] && s.pdrLive[p] }})
 			add(urrEv{name: fmt.Sprintf("QueryURR(%d)+RemovePDR(%d)", u, p), ops: []smf.RuleOp{op('Q', 'U', u), pdr('R', p, 0)},
@@ -657,7 +660,7 @@ func runURR(prop, tier, bound string, assume ...string) {
 }
 
 func RunC12(tier string) {
-	runURR("C12", tier, "one session, PDR ids {1,2} (thorough {1,2,3}) x URR ids {1,2}: Create/Update/Remove PDR with every URR list, Create/Remove/Query URR, the pairs Remove URR+Remove PDR and Query URR+Remove PDR in one message, Deletion and re-establishment; all histories to depth %d (completed %d) from the established session")
+	runURR("C12", tier, "one session, PDR ids {1,2} (thorough {1,2,3}) x URR ids {1,2}: Create/Update/Remove PDR with every URR list, Create/Remove/Query URR, the pairs Create URR+Create PDR, Remove URR+Remove PDR and Query URR+Remove PDR in one message, Deletion and re-establishment; all histories to depth %d (completed %d) from the established session")
 }
 
 func RunC11(tier string) {
